@@ -200,6 +200,9 @@ KW_POSITIONS = {
 }
 
 
+# methods of the package's own classes whose name is unique in the package: receiver-independent
+KW_METHOD_POSITIONS = {".new_header": ["update_dict"], ".mjd_after_nsamps": ["nsamps"], ".get_dmdelays": ["dm", "ref_freq"]}
+
 _INT_ATOM = re.compile(r"(\.tell(#\d+)?\(\)$)|(^len\()|(^struct\.calcsize\()|(\.st_size$)|(^np\.where\(.*\)\[0\]\[0\]$)|(\.argmax\(\)$)|(\.argmin\(\)$)|"
                        r"(^np\.(argmax|argmin|searchsorted|count_nonzero)\()|(\.size$)|(\.ndim$)|(\.shape\[-?\d+\]$)")
 
@@ -434,7 +437,7 @@ class PolyEnv:
             fn = dotted(e.func) or self._operand(e.func)
             pos = list(e.args)
             kws = list(e.keywords)
-            sig = KW_POSITIONS.get(re.sub(r"#\d+", "", fn))
+            sig = KW_POSITIONS.get(re.sub(r"#\d+", "", fn)) or next((v for k, v in KW_METHOD_POSITIONS.items() if re.sub(r"#\d+", "", fn).endswith(k)), None)
             if sig and kws:
                 # keyword arguments of well-known signatures are normalised to positional form
                 byname = {k.arg: k.value for k in kws}
